@@ -66,3 +66,9 @@ Fixpoint outputs (k : nat) (s : xstate) : list N :=
 Definition rng_eval (seed : N) (k : nat) : list Z :=
   let s := seed_from_u64 seed in
   map Z.of_N ([s0 s; s1 s; s2 s; s3 s] ++ outputs k s).
+
+(* float conversions and the injection state: numerators of the first f64 / f32 uniform of
+   seed_from_u64 s, then first output and first f64 / f32 numerators of inject_state s *)
+Definition rng_uniform_eval (s : N) : list Z :=
+  map Z.of_N [fst (uniform53 (seed_from_u64 s)); fst (uniform24 (seed_from_u64 s));
+              fst (next_u64 (inject_state s)); fst (uniform53 (inject_state s)); fst (uniform24 (inject_state s))].
